@@ -10,7 +10,9 @@ package scheduler
 //@   requires s != nil && s.torrentControls != nil
 //@   requires forall k core.InfoHash :: k in s.torrentControls ==> s.torrentControls[k] != nil && allocated(s.torrentControls[k])
 //@   modifies *
-//@   assert keeps_completed_blob: at storage.TorrentArchive.DeleteTorrent#0 :: !ctrl.dispatcher.done
+//@   assert keeps_completed_blob: at storage.TorrentArchive.DeleteTorrent#0 :: !ctrl.dispatcher.torrent.Torrent.whole
+//@   assert failure_carries_the_reason: at builtin.send#0 :: arg1 == err
+//@   assert success_only_when_complete: at builtin.send#1 :: arg1 == nil && ctrl.dispatcher.torrent.Torrent.whole
 //@   ensures removed: !(h in s.torrentControls)
 //@   ensures waiters_answered: old(h in s.torrentControls) ==> answered(old(s.torrentControls[h]))
 //@   ensures others_kept: forall k core.InfoHash :: k != h ==> ((k in s.torrentControls) <==> old(k in s.torrentControls)) && s.torrentControls[k] == old(s.torrentControls[k])
@@ -32,6 +34,11 @@ package scheduler
 //@   loop 1 invariant table: s.torrentControls == old(s.torrentControls) && s.torrentControls != nil && s.sched == old(s.sched)
 //@   loop 1 invariant ctrls: forall k core.InfoHash :: k in s.torrentControls ==> s.torrentControls[k] != nil && allocated(s.torrentControls[k])
 //@   assert only_idle: at state.removeTorrent#0 :: (s.sched.clock.now - ctrl.dispatcher.obsRead >= s.sched.config.SeederTTI) || (s.sched.clock.now - ctrl.dispatcher.obsWrite >= s.sched.config.LeecherTTI)
+// Which limit applies follows the torrent's completion (which only ever goes from false to true,
+// and may do so at any of the Complete() reads): the seeder limit justifies the drop only of a
+// torrent that is complete by then, the leecher limit only of one that was still in progress when
+// this round of the loop looked at it.
+//@   assert limit_by_completion: at state.removeTorrent#0 :: (ctrl.dispatcher.torrent.Torrent.whole && s.sched.clock.now - ctrl.dispatcher.obsRead >= s.sched.config.SeederTTI) || (!iterstart(ctrl.dispatcher.torrent.Torrent.whole) && s.sched.clock.now - ctrl.dispatcher.obsWrite >= s.sched.config.LeecherTTI)
 
 // ---- C17: no waiter of a Download call is lost -------------------------------------------------
 // sent(ch) is the ghost count of messages sent on a channel. A waiter channel is "answered" once
